@@ -317,39 +317,47 @@ def Net.fuel (n : Net) : Nat := 3 * n.totalConns + 4
 
 /-! ### `Terminal._disconnect` and the "disconnect" message it sends (terminal.py) -/
 
-mutual
-/-- `Terminal._disconnect(cid)` on node `i` -/
-def disconnect : Nat → Net → Nat → Nat → Net
-  | 0, n, _, _ => { n with stuck := true }
-  | f + 1, n, i, cid =>
+/-- the three mutually recursive procedures of the disconnect chain -/
+inductive Hop
+  /-- `Terminal._disconnect(cid)` on node `i` -/
+  | disconnect
+  /-- `Terminal.receive` of `{"type": "disconnect", "connection_id": cid}` on node `j` -/
+  | onDisconnect
+  /-- `UserSessionManager._logout(local=False, remote_session_id=cid)`, not forced -/
+  | remoteLogout
+deriving DecidableEq, Repr
+
+/-- One fuel-indexed function (structural recursion on the fuel) for the three procedures, so that it computes by
+reduction.  Each `_disconnect` that goes on first removes a connection, so `Net.fuel` is never exhausted; should it be,
+`stuck` is set and shown to the rig. -/
+def chain : Nat → Hop → Net → Nat → Nat → Net
+  | 0, _, n, _, _ => { n with stuck := true }
+  | f + 1, .disconnect, n, i, cid =>
     match n.node i with
     | none => n
     | some nd =>
       match nd.conns.find? (fun c => c.id == cid) with
       | none => n
       | some c =>
-        let n1 := n.upd i (Node.dropConn cid)
         match c.peer with
-        | none => n1.upd i Node.localLogout
-        | some p => if canDeliver n1 i p then onDisconnect f n1 p cid else n1
-/-- `Terminal.receive` of `{"type": "disconnect", "connection_id": cid}` on node `j` -/
-def onDisconnect : Nat → Net → Nat → Nat → Net
-  | 0, n, _, _ => { n with stuck := true }
-  | f + 1, n, j, cid =>
+        | none => (n.upd i (Node.dropConn cid)).upd i Node.localLogout
+        | some p =>
+          if canDeliver (n.upd i (Node.dropConn cid)) i p then chain f .onDisconnect (n.upd i (Node.dropConn cid)) p cid
+          else n.upd i (Node.dropConn cid)
+  | f + 1, .onDisconnect, n, j, cid =>
     match n.node j with
     | none => n
     | some nd =>
       if nd.hasSession cid then
-        if nd.hasConn cid then remoteLogout f (disconnect f n j cid) j cid else n
-      else disconnect f n j cid
-/-- `UserSessionManager._logout(local=False, remote_session_id=cid)`, not forced -/
-def remoteLogout : Nat → Net → Nat → Nat → Net
-  | 0, n, _, _ => { n with stuck := true }
-  | f + 1, n, j, cid =>
+        if nd.hasConn cid then chain f .remoteLogout (chain f .disconnect n j cid) j cid else n
+      else chain f .disconnect n j cid
+  | f + 1, .remoteLogout, n, j, cid =>
     match n.node j with
     | none => n
-    | some nd => if nd.canUsm then (disconnect f n j cid).upd j (Node.dropSession cid) else n
-end
+    | some nd => if nd.canUsm then (chain f .disconnect n j cid).upd j (Node.dropSession cid) else n
+
+/-- `Terminal._disconnect(cid)` on node `i` -/
+def disconnect (f : Nat) (n : Net) (i cid : Nat) : Net := chain f .disconnect n i cid
 
 /-- `_logout(local=False, cid, force=True)` -/
 def forceLogout (n : Net) (j cid : Nat) : Net := (disconnect n.fuel n j cid).upd j (Node.dropSession cid)
